@@ -32,11 +32,15 @@ MV walk(const NodeT& n, std::string* err = nullptr, int depth = 0) {
     if (n.IsUint64()) {
       uint64_t u = n.GetUint64();
       if (n.IsInt64() != (u <= (uint64_t)INT64_MAX)) bad("IsInt64 inconsistent for unsigned");
+      // the converting getters read the same value through another type
+      if (n.GetDouble() != static_cast<double>(u)) bad("GetDouble() of an unsigned integer node is not the value converted to double");
+      if (u <= (uint64_t)INT64_MAX && n.GetInt64() != (int64_t)u) bad("GetInt64() of a small unsigned integer node differs from GetUint64()");
       return MV::uint(u);
     }
     if (n.IsInt64()) {
       int64_t i = n.GetInt64();
       if (i >= 0) bad("signed kind holds a non-negative value");
+      if (n.GetDouble() != static_cast<double>(i)) bad("GetDouble() of a negative integer node is not the value converted to double");
       MV m;
       m.k = MV::Sint;
       m.u = (uint64_t)i;
